@@ -590,3 +590,21 @@ func TestRejectedAndMutated(t *testing.T) {
 		subListing.Run(t, Case{Bytes: b})
 	}
 }
+
+func FuzzListing(f *testing.F) {
+	var seeds [][]byte
+	for _, c := range corpus.Sample(16) {
+		seeds = append(seeds, c.Data)
+	}
+	seeds = append(seeds, gen.Hostile...)
+	fz := harness.Counter("fuzz-listing", "native coverage-guided fuzzing (go test -fuzz) of the listing oracle, seeded with corpus graphics (thorough tier only)")
+	harness.FuzzBytes(f, seeds, func(b []byte) error {
+		if len(b) > 4096 {
+			return nil
+		}
+		return subListing.Eval(Case{Bytes: b})
+	}, func(b []byte) {
+		p := spec.Parse(b)
+		fz.Observe(p.OK && len(p.Ops) > 1, harness.Hash(b), nil)
+	})
+}
